@@ -106,9 +106,9 @@ theorem write_chain (w : World) (hp : w.pending = []) (a : Write) :
     cases hl : lookup w.store id with
     | some e => simp [Write.steps, run, step, hl, hp, chains]
     | none =>
-      have hb : bodyOf (w.store ++ [⟨id, m, w.clock + 1⟩]) = (bodyOf w.store).set id (some m) := by
+      have hb : bodyOf (w.store ++ [⟨id, m, w.clock + w.tick⟩]) = (bodyOf w.store).set id (some m) := by
         funext i
-        simp only [bodyOf, Held.set, lookup_append_new ⟨id, m, w.clock + 1⟩ i w.store hl]
+        simp only [bodyOf, Held.set, lookup_append_new ⟨id, m, w.clock + w.tick⟩ i w.store hl]
         by_cases hi : i = id <;> simp [hi]
       have ho : bodyOf w.store id = none := by simp [bodyOf, hl]
       simp [Write.steps, run, step, hl, hp, chains, hb, ho]
@@ -116,13 +116,13 @@ theorem write_chain (w : World) (hp : w.pending = []) (a : Write) :
     cases hl : lookup w.store id with
     | none => simp [Write.steps, run, step, hl, hp, chains]
     | some e =>
-      have hb : bodyOf (w.store.map (fun x => if x.id == id then ⟨id, m, w.clock + 1⟩ else x))
+      have hb : bodyOf (w.store.map (fun x => if x.id == id then ⟨id, m, w.clock + w.tick⟩ else x))
           = (bodyOf w.store).set id (some m) := by
         funext i
-        simp only [bodyOf, Held.set, lookup_map_set id ⟨id, m, w.clock + 1⟩ rfl i w.store]
+        simp only [bodyOf, Held.set, lookup_map_set id ⟨id, m, w.clock + w.tick⟩ rfl i w.store]
         by_cases hi : i = id <;> simp [hi, hl]
       have ho : bodyOf w.store id = some e.body := by simp [bodyOf, hl]
-      have hb2 : bodyOf (w.store.map (fun x => if x.id = id then ⟨id, m, w.clock + 1⟩ else x))
+      have hb2 : bodyOf (w.store.map (fun x => if x.id = id then ⟨id, m, w.clock + w.tick⟩ else x))
           = (bodyOf w.store).set id (some m) := by simpa using hb
       simp [Write.steps, run, step, hl, hp, chains, hb2, ho]
   | delete id =>
